@@ -12,17 +12,7 @@ from pyvc.contract import Contract, Registry, Loop
 from pyvc import ops
 
 REG = Registry()
-V3 = TVec(3)
-MK = TTuple(TInt, TNode)
-
-ENGINE = TRec("polyply.src.nonbond_engine:NonBondEngine", posd=TDict(MK, V3), boxsize=V3)
-NODEATTR = TRec("nodeattrs", build=TBool, has_position=TBool)
-TREE = TRec("searchtree", edges=TList(TTuple(TNode, TNode)))
-METAMOL = TRec("polyply.src.meta_molecule:MetaMolecule", nodes=TDict(TNode, TRec("nodeattrs", build=TBool, position=TOpt(V3))),
-               search_tree=TREE, root=TOpt(TNode))
-WALK = TRec("polyply.src.random_walk:RandomWalk", mol_idx=TInt, nonbond_matrix=ENGINE, start=V3, maxiter=TInt, maxdim=V3,
-            vector_sphere=TList(V3), success=TBool, max_force=TReal, step_fudge=TReal, start_node=TOpt(TNode), nrewind=TInt,
-            placed_nodes=TList(TTuple(TInt, TNode)), prev_prob=TReal, molecule=METAMOL)
+from contracts.rw_types import V3, MK, ENGINE, NODEATTR, TREE, METAMOL, WALK, RESTRAINT    # noqa: E402
 
 
 def has(d, m, x):
